@@ -147,7 +147,9 @@ func (h *Sources) Redo() {
 
 	line.pos--
 
+	// Nothing (more) to redo: we are back on the most recent state.
 	if line.pos < 1 {
+		line.pos = 0
 		return
 	}
 
